@@ -41,15 +41,17 @@ def default_fee(
     content: Dict[str, Any],
     gas_limit: Optional[int] = None,
     minimal_nanotez_per_gas_unit: Optional[int] = None,
+    signature_size: int = 64,
 ) -> int:
     """Take hard gas limit instead of precise amount (no simulation) and calculate fee.
 
     :param content: operation content {..., "kind": "transaction", ... }
+    :param signature_size: size of the signature in bytes (96 for BLS keys)
     """
     return calculate_fee(
         content=content,
         consumed_gas=gas_limit if gas_limit is not None else default_gas_limit(content),
-        extra_size=32 + 64 + 3 * 3,  # branch, signature, fee:gas_limit:storage_limit mutez values (+3 bytes)
+        extra_size=32 + signature_size + 3 * 3,  # branch, signature, fee:gas_limit:storage_limit mutez values (+3 bytes)
         minimal_nanotez_per_gas_unit=minimal_nanotez_per_gas_unit,
     )
 
